@@ -71,6 +71,11 @@ func init() {
 					// the http server does not tell which port it got: give it a free one
 					hs.Address.Host = fmt.Sprintf("%s:%d", strings.TrimSuffix(hs.Address.Host, ":0"), freePort())
 				}
+				if i := strings.Index(text, ":///"); i > 0 && strings.Contains(text[:i], "unix") {
+					// a socket file left behind by an earlier run must not decide the outcome
+					os.Remove(text[i+3:])
+					defer os.Remove(text[i+3:])
+				}
 				if err := ss[0].Startup(server.Channels{&echoChannel{hits: new(int)}}); err != nil {
 					return append(out, TW("starterr"))
 				}
@@ -78,13 +83,17 @@ func init() {
 				sec := "na"
 				bound := ""
 				// what the endpoint speaks on the wire: a TLS handshake completes, or a plaintext request is answered
+				network := "tcp"
+				if strings.Contains(text, "unix") {
+					network = "unix"
+				}
 				probe := func(hostport string) string {
 					d := &net.Dialer{Timeout: time.Second}
-					if c, err := tls.DialWithDialer(d, "tcp", hostport, &tls.Config{InsecureSkipVerify: true}); err == nil {
+					if c, err := tls.DialWithDialer(d, network, hostport, &tls.Config{InsecureSkipVerify: true}); err == nil {
 						c.Close()
 						return "tls"
 					}
-					c, err := net.DialTimeout("tcp", hostport, time.Second)
+					c, err := net.DialTimeout(network, hostport, time.Second)
 					if err != nil {
 						return "none"
 					}
@@ -102,7 +111,7 @@ func init() {
 				case *server.SocketServer:
 					sec = fmt.Sprint(b2i(v.VerifSecure()))
 					bound = v.VerifAddr()
-					if !strings.Contains(text, "unix") {
+					if !strings.Contains(text, "unixpacket") { // (stream sockets; a seqpacket socket is probed the same way by nobody)
 						wire = probe(bound)
 						if wire == "silent" {
 							wire = "plain" // a plain socket endpoint waits for the client's first message
